@@ -275,12 +275,13 @@ func checkOmit(c OmitCase) error {
 			return nil
 		}
 	}
-	base := clit.Run(tp, c.Data, seed, 0, c.Extra...)
-	again := clit.Run(tp, c.Data, seed, 0, c.Extra...)
+	// dates and times written to log files are masked: two runs can straddle a minute
+	base := clit.Run(tp, c.Data, seed, 0, c.Extra...).Masked()
+	again := clit.Run(tp, c.Data, seed, 0, c.Extra...).Masked()
 	if base.Diff(again) != "" {
 		return nil // not reproducible: a matter for C18, nothing can be concluded here
 	}
-	with := clit.Run(tp, c.Data, seed, 0, append(append([]string{}, c.Extra...), "--"+fl.Name+"="+fl.DefValue)...)
+	with := clit.Run(tp, c.Data, seed, 0, append(append([]string{}, c.Extra...), "--"+fl.Name+"="+fl.DefValue)...).Masked()
 	if d := base.Diff(with); d != "" {
 		return fmt.Errorf("%s %v: leaving out --%s differs from passing its documented default --%s=%s: %s", tp.Name, c.Extra, fl.Name, fl.Name, fl.DefValue, d)
 	}
